@@ -1,0 +1,71 @@
+//go:build verif
+
+package vivid
+
+import (
+	"sort"
+
+	"github.com/kercylan98/minotaur/engine/vivid/dispatcher"
+	"github.com/kercylan98/minotaur/engine/vivid/mailbox"
+	"github.com/kercylan98/minotaur/toolkit"
+)
+
+// Accessors for the verification harness in /verif (build tag verif only). Read-only, except
+// VerifSetDefaultDispatcher which replaces the default dispatcher singleton so that the guard and
+// the subscription actor run under the harness's serialising dispatcher as well.
+
+// VerifSetDefaultDispatcher makes GetDefaultDispatcherProvider() hand out d.
+func VerifSetDefaultDispatcher(d dispatcher.Dispatcher) {
+	defaultDispatcherSingleton = toolkit.NewInertiaSingleton[dispatcher.Dispatcher](func() dispatcher.Dispatcher { return d })
+}
+
+// VerifNewAbyss returns a fresh default dead-letter process (so that a recording wrapper can delegate to it).
+func VerifNewAbyss() AbyssProcess { return newAbyss() }
+
+// VerifMailboxOf returns the mailbox of the actor registered under ref (nil if none).
+func VerifMailboxOf(sys *ActorSystem, ref ActorRef) mailbox.Mailbox {
+	if p, ok := sys.rc.GetProcess(ref).(*actorProcess); ok {
+		return p.mailbox
+	}
+	return nil
+}
+
+// VerifGuardRef / VerifSubscriptionRef: the references of the two built-in actors.
+func VerifGuardRef(sys *ActorSystem) ActorRef        { return sys.guard.ref }
+func VerifSubscriptionRef(sys *ActorSystem) ActorRef { return sys.subscription }
+
+// VerifActorInfo is a snapshot of an actor's bookkeeping.
+type VerifActorInfo struct {
+	Status        uint32
+	Children      []string // logical addresses, sorted
+	Watchers      []string // URLs, sorted
+	Accidents     int
+	Graceful      bool
+	ProcTerminate bool
+}
+
+// VerifInfo reads the bookkeeping of the actor behind mailbox m (its recipient is the actor context).
+func VerifInfo(m mailbox.Mailbox) (info VerifActorInfo, ok bool) {
+	ctx, isCtx := mailbox.VerifRecipient(m).(*actorContext)
+	if !isCtx {
+		return info, false
+	}
+	info.Status = ctx.status.Load()
+	for k := range ctx.children {
+		info.Children = append(info.Children, k)
+	}
+	sort.Strings(info.Children)
+	for k := range ctx.watchers {
+		info.Watchers = append(info.Watchers, k)
+	}
+	sort.Strings(info.Watchers)
+	info.Accidents = ctx.accidentState.AccidentCount()
+	info.Graceful = ctx.gracefullyTerminated
+	return info, true
+}
+
+// VerifIsRegistered reports whether ref resolves to an actor process (not the dead-letter substitute).
+func VerifIsRegistered(sys *ActorSystem, ref ActorRef) bool {
+	_, ok := sys.rc.GetProcess(ref).(*actorProcess)
+	return ok
+}
